@@ -1,6 +1,6 @@
 INIT Init
 NEXT Next
-CONSTANTS TotalExp = 6 BlockExp = 4 H0 = 16 HA = 48 MaxArenas = 2 MaxLogs = 2 MaxH = 5 Tags = {1}
+CONSTANTS TotalExp = 6 BlockExp = 4 H0 = 16 HA = 48 MaxArenas = 2 MaxLogs = 2 MaxH = 4 Tags = {1}
 INVARIANT SizeExact
 INVARIANT SnapSizes
 INVARIANT RefsIncrease
